@@ -3,6 +3,7 @@
 package checks
 
 import (
+	"os"
 	"strings"
 	"encoding/json"
 	"fmt"
@@ -36,6 +37,10 @@ func c10Scenarios(thorough bool) []c10Scenario {
 			c10Scenario{"sync over the 1000 boundary, reorg across it, clean stop" + tag, histParams{Prop: "C10", Cfg: b, Boot: "cold"},
 				[]string{"settle", "ext:1", "settle", "reorg:4:5", "settle", "restart:raw"}},
 		)
+		out = append(out, c10Scenario{"reorg across the 1000 boundary, then the connection drops before the peer answers again (reconnect saves), clean stop" + tag, histParams{Prop: "C10", Cfg: b, Boot: "cold"},
+			[]string{"settle", "ext:1", "settle", "reorg:4:5", "drop", "tick:1500", "settle", "restart:raw"}},
+			c10Scenario{"reorg across the 1000 boundary, clean stop right after the fork was announced" + tag, histParams{Prop: "C10", Cfg: b, Boot: "cold"},
+				[]string{"settle", "ext:1", "settle", "reorg:4:5", "restart:raw"}})
 		if rm || thorough {
 			// the start block lies above the first file boundary: the headers below it are appended by the
 			// headers handler itself (pre-start mode), including the roll-over write of the first full file
@@ -196,6 +201,10 @@ func c10Exec(t c10Task) c10Result {
 			res.FailedOp = what
 		}
 		cls := opClass(what)
+		if os.Getenv("VERIF_TRACE") != "" {
+			ok, why := w.Converged()
+			println("C10 fault run: failed op:", what, "converged:", ok, why, "runDone:", w.runDone)
+		}
 		w.PanicViolations("C10")
 		if len(w.viol) == 0 {
 			// either the running node is consistent, or a restart recovers
@@ -220,6 +229,17 @@ func c10Exec(t c10Task) c10Result {
 				}
 			} else if len(w.viol) == 0 {
 				w.chainInvariants("C10")
+				if len(w.viol) == 0 && !w.runDone {
+					// what the node leaves behind after a clean stop must load as one announced branch as well
+					w.StopNode()
+					if len(w.viol) == 0 && w.loadedChainCheck(w.Store, "clean stop after failed "+cls) {
+						w.StartNode()
+						w.settle()
+						if ok3, why := w.drainConverge(); !ok3 && len(w.viol) == 0 {
+							w.fail("C10", "recovers-after-fault", "node restarted after the fault and a clean stop does not converge (failed "+cls+")", why)
+						}
+					}
+				}
 			}
 		}
 		for i := range w.viol {
